@@ -191,11 +191,12 @@ def classify(failed_check):
     return "panic", "panic:%s@%s" % (fn_short, base)
 
 
-def run_family(out, names, expect_fail=(), tier="quick", timeout_s=None, target_tag=None, jobs=16):
+def run_family(out, names, expect_fail=(), tier="quick", timeout_s=None, target_tag=None, jobs=16, classes=None):
     """Run harnesses `names`; record obligations/violations into Outcome `out`.
 
     expect_fail: vacuity twins, which must come back FAILED.
     """
+    only_classes = classes
     timeout_s = timeout_s or (150 if tier == "quick" else 900)
     tag = target_tag or out.prop
     target = os.path.join(C.WORK, "target-kani-%s" % tag)
@@ -292,6 +293,9 @@ def run_family(out, names, expect_fail=(), tier="quick", timeout_s=None, target_
         out.obligation(n, "kani", "violated", r.time_s, witness=True,
                        failed=[list(x) for x in r.failed][:4], model=vals, replay=rr, stubs=r.stubs)
         for (kind, key), fc in classes.items():
+            if only_classes is not None and kind not in only_classes:
+                out.notes.append("%s: failed check of class '%s' belongs to another property: %s" % (n, kind, fc[0][:80]))
+                continue
             out.violation(C.Violation(
                 key="%s|%s" % (n, key),
                 what="%s: %s (%s)" % (n, fc[0].strip('"'), fc[3] or fc[1]),
